@@ -79,7 +79,9 @@ def _apply_rules(toks, rule_list, log, where, kind):
         if r == "R1":
             toks = R.r1_strip_attrs_docs(toks, log, where)
         elif r == "R2":
-            toks = R.r2_pub_fn(toks, log, where) if kind == "fn" else R.r2_pub_fields(toks, log, where) if kind == "struct" else toks
+            toks = R.r2_pub_fn(toks, log, where)
+            if kind == "struct":
+                toks = R.r2_pub_fields(toks, log, where)
         elif r == "R3":
             toks = R.r3_bytes(toks, log, where)
         elif r == "R4":
